@@ -19,7 +19,7 @@ CLAIM = dict(
           'reverse_einsum_arg_order only the choice einsum / operand-and-subscript-swapped einsum, transform_precision only `precision=`, base_shape_multiple only '
           'padded shapes, stacked_fourier_transforms only the paired reshape/branches whose specs are adjoint and whose memory order is shared; the deprecated alias '
           'adds nothing. Does not decide numerical equality of fields, tendencies or trajectories.'
-          ' Later additions: C09.5 the level padding of the z-sharded fast path pads and crops the same end (C07.3 re-filed), in either the jnp.pad or the pad_in_dim spelling.'),
+          ' Later additions: C09.5 the level padding of the z-sharded fast path pads and crops the same end (C07.3 re-filed), in either the jnp.pad or the pad_in_dim spelling. C09.6 the package-wide padded-extent scan (C07.1 re-filed).'),
     note=('Reuses the layout / adjoint / memory-order rules of C01 and the builder–derivative agreement of C02 as sibling checks between the two classes.'),
     technique='interface conformance over the class model + who-may-read analysis of option attributes (AST roles) + sibling layout rules shared with C01/C02',
 )
